@@ -42,6 +42,13 @@ def main():
         src = re.sub(r'/tmp/wt_[A-Za-z0-9_]+', scratch, src)
         dpath = os.path.join(scratch, '_demo.py')
         open(dpath, 'w').write(src)
+        # helper files the demo may use (e.g. a node script next to it): same relative place (_out/) in the scratch worktree
+        extra = [f for f in os.listdir(os.path.dirname(os.path.abspath(demo))) if f.endswith('.js')]
+        os.makedirs(os.path.join(scratch, '_out'), exist_ok=True)
+        for f in extra:
+            txt = open(os.path.join(os.path.dirname(os.path.abspath(demo)), f)).read()
+            open(os.path.join(scratch, '_out', f), 'w').write(re.sub(r'/tmp/wt_[A-Za-z0-9_]+', scratch, txt))
+            open(os.path.join(scratch, f), 'w').write(re.sub(r'/tmp/wt_[A-Za-z0-9_]+', scratch, txt))
         rc_clean, out_clean = sh('/venv/bin/python _demo.py', cwd=scratch, timeout=600)
         rc, out = sh('git apply %s' % os.path.abspath(diff), cwd=scratch)
         assert rc == 0, 'diff does not apply: ' + out
@@ -79,6 +86,14 @@ def main():
             viol = [l for l in out.splitlines() if l.startswith('VIOLATION')]
             results[c] = {'exit': rc, 'violations': len(viol), 'first': (viol[0] if viol else None), 'summary': out.strip().splitlines()[-1][:200], 'wall_s': round(time.time() - t0)}
             meta['ran'].append('./check %s %s against a scratch worktree with the change applied (VF_REPO) -> exit %d, %d VIOLATION lines' % (c, tier, rc, len(viol)))
+        if not any(r['exit'] == 1 for r in results.values()) and '--no-thorough' not in a:
+            # missed by the quick tier: does the thorough tier of the property's own check catch it (wall budget 15 min)?
+            t0 = time.time()
+            env2 = dict(env, VERIF_BUDGET='900')
+            rc, out = sh('./check %s thorough' % prop, cwd=VERIF, timeout=7200, env=env2)
+            viol = [l for l in out.splitlines() if l.startswith('VIOLATION')]
+            meta['thorough_on_miss'] = {'exit': rc, 'violations': len(viol), 'first': (viol[0] if viol else None), 'summary': out.strip().splitlines()[-1][:200], 'wall_s': round(time.time() - t0)}
+            meta['ran'].append('./check %s thorough (VERIF_BUDGET=900) after the quick miss -> exit %d, %d VIOLATION lines' % (prop, rc, len(viol)))
     finally:
         sh('git -C /repo worktree remove --force %s' % evaldir)
         shutil.rmtree(evaldir, ignore_errors=True)
@@ -92,8 +107,11 @@ def main():
     if 'import os' not in demo_src:
         demo_src = 'import os\n' + demo_src
     open(os.path.join(d, 'demo.py'), 'w').write(demo_src)
+    for f in os.listdir(os.path.dirname(os.path.abspath(demo))):
+        if f.endswith('.js'):
+            shutil.copy(os.path.join(os.path.dirname(os.path.abspath(demo)), f), os.path.join(d, f))
     json.dump(meta, open(os.path.join(d, 'meta.json'), 'w'), indent=1)
-    print(sid, 'caught by', meta['caught_by'], {c: (r['exit'], r['violations']) for c, r in results.items()})
+    print(sid, 'caught by', meta['caught_by'], {c: (r['exit'], r['violations']) for c, r in results.items()}, ('thorough: exit %d' % meta['thorough_on_miss']['exit']) if 'thorough_on_miss' in meta else '')
     return 0
 
 
